@@ -527,6 +527,7 @@ class SsdpSearchResponder:
                 remote_addr,
                 responses,
             )
+            return
         self._send_responses(remote_addr, responses)
 
     def _build_responses(self, headers: CaseInsensitiveDict) -> List[bytes]:
